@@ -253,8 +253,8 @@ def _worker(args):
 
 def check(tier):
     ck = core.Check("C10", tier)
-    shards, n = (16, 4000) if tier == "quick" else (64, 8000)
-    variants = ["asan"] * shards
+    shards, n = (16, 4000) if tier == "quick" else (256, 8000)
+    variants = ["asan" if i % 4 != 3 else "asan-small" for i in range(shards)]
     res = core.pmap(_worker, [(ck.seed, i, n, variants[i]) for i in range(shards)])
     counters = sem.merge(ck, res)
     ck.cov["rule"] = ("definitions through the callback interface: raw random grammars, pool grammars and mutants, and "
